@@ -1,5 +1,6 @@
 include "inc/common.thrift"
 include "shared.thrift"
+include "ver.v1.thrift"
 namespace go c15.mn
 namespace java jm
 // struct comment
@@ -13,6 +14,8 @@ struct S {
   7: list<U> us
   8: byte b
   9: optional TS ts
+  10: ver.v1.V vv
+  11: map<ver.v1.VE, ver.v1.VT> vm
 } (sk = "sv")
 union U { 1: i64 x; 2: string y }
 exception X { 1: string msg (m = "") }
@@ -34,3 +37,4 @@ service Svc extends Base {
   oneway void fire(1: i64 n)
   list<E> es()
 } (sva = "x")
+service Svc3 extends ver.v1.VS { }
